@@ -485,10 +485,21 @@ def r3(ctx):
             if SRC == "plates" and PL != "plates" and not any(isinstance(v, ast.Call) and call_name(v) == "sorted" for v in d_):
                 SRC = PL
 
+    # .. or, in the zip form, the list whose two halves are zipped
+    zl0 = [n for n in walk_own(f.node) if isinstance(n, ast.For) and isinstance(n.iter, ast.Call) and call_name(n.iter) == "zip" and len(n.iter.args) == 2
+           and any(attr_tail(c) == "merge" for c in calls(n))]
+    if len(zl0) == 1 and isinstance(zl0[0].iter.args[0], ast.Subscript) and isinstance(zl0[0].iter.args[0].value, ast.Name) and PL == "plates" \
+            and zl0[0].iter.args[0].value.id != "plates":
+        PL = SRC = zl0[0].iter.args[0].value.id
+        for v in env.get(PL, []):
+            if isinstance(v, ast.Call) and call_name(v) == "sorted" and v.args and isinstance(v.args[0], ast.Name):
+                SRC = v.args[0].id
+
     def T(x):
         return U(inline(x, {k: v for k, v in env1.items() if k not in (PL, SRC)})).replace(" ", "")
     HALF = tuple(f_.format(L=L_) for L_ in {PL, SRC} for f_ in ("math.floor(len({L})/2)", "len({L})//2", "int(len({L})/2)"))
-    key_ok = lambda t_: t_ in ("lambdax:x.size", "lambdap:p.size", "lambdaplate:plate.size", "operator.attrgetter('size')", "attrgetter('size')")
+    import re as _re
+    key_ok = lambda t_: bool(_re.fullmatch(r"lambda(\w+):\1\.size", t_)) or t_ in ("operator.attrgetter('size')", "attrgetter('size')")
     srt = any(isinstance(v, ast.Call) and call_name(v) == "sorted" and v.args and U(v.args[0]) in (SRC, PL) and key_ok({k.arg: U(k.value).replace(" ", "") for k in v.keywords}.get("key", ""))
               and len(v.keywords) == 1 for v in env.get(PL, [])) or \
         any(attr_tail(c) == "sort" and U(c.func.value) == PL and len(c.keywords) == 1 and key_ok({k.arg: U(k.value).replace(" ", "") for k in c.keywords}.get("key", "")) for c in calls(f.node))
@@ -934,6 +945,9 @@ def r7(ctx):
         return
     C04.r7(ctx, rule="R7", sites=[s for s in C04.ROW_CLASS_SITES if s[0] == "data.filter_dataset_to_treatments_that_appear_in_at_least_one_combo"])
     ids = "treatment_ids"
+    al_ = [k for k, v in single_defs(f.node).items() if isinstance(v, ast.Attribute) and v.attr == "treatment_ids" and U(v.value) == S]
+    if ids not in single_defs(f.node) and len(al_) == 1:
+        ids = al_[0]                    # the local copy of <screen>.treatment_ids, whatever it is called
     env = {k: v for k, v in single_defs(f.node).items() if k != ids}
     r = returns(f.node)
     ok = False
